@@ -17,7 +17,6 @@ CLAIMS = {
 }
 
 NOT_APPLICABLE = {
-    "C13": "not claimed: every path of the property runs through Bevy's scheduler (which system runs under which run condition in which frame) and Events<E> resources reached through type-erased pointers registered in a World; the only solver-reachable kernel (send_typed / resend_locally_typed / reset_typed on a hand-assembled ClientEvent with a hand-encoded frame schedule) was not built in the time available, and without it nothing of the property is decided - see DESIGN.md 9.1 for the defect predicted by reading",
     "C18": "scene::replicate_into is one function over &World, Archetypes, AppTypeRegistry and reflection trait objects; "
            "World::new() alone gives no CBMC verdict in 1500 s (DESIGN.md P6) and no ECS-free kernel exists, so solver-based "
            "checking of the real code cannot reach it.",
